@@ -3,6 +3,7 @@ package main
 import (
 	"fmt"
 	"go/ast"
+	"go/token"
 	"strings"
 )
 
@@ -49,6 +50,34 @@ func condKind(text string) string {
 		return "guardReadOnly"
 	}
 	return ""
+}
+
+// guardKinds: the guard kinds of the disjuncts of a condition (in order) when every disjunct is a known guard; nil otherwise
+func guardKinds(r *Repo, e ast.Expr) []string {
+	var ds []ast.Expr
+	var flat func(e ast.Expr)
+	flat = func(e ast.Expr) {
+		if p, ok := e.(*ast.ParenExpr); ok {
+			flat(p.X)
+			return
+		}
+		if b, ok := e.(*ast.BinaryExpr); ok && b.Op == token.LOR {
+			flat(b.X)
+			flat(b.Y)
+			return
+		}
+		ds = append(ds, e)
+	}
+	flat(e)
+	var ks []string
+	for _, d := range ds {
+		k := condKind(strings.Join(strings.Fields(r.Text(d)), " "))
+		if k == "" {
+			return nil
+		}
+		ks = append(ks, k)
+	}
+	return ks
 }
 
 // terminal action of a guard body: return… / panic(…) / other
@@ -185,8 +214,11 @@ func (w *syncWalker) stmt(s ast.Stmt, ctx string, guards []string) {
 		cond := strings.Join(strings.Fields(w.r.Text(x.Cond)), " ")
 		w.exprTop(x.Cond, ctx, guards)
 		nctx := ctx
-		if k := condKind(cond); k != "" {
-			w.add(k, ctx, guards, bodyAction(w.r, x.Body))
+		if ks := guardKinds(w.r, x.Cond); len(ks) > 0 {
+			// `if a || b { return }` is the same guard sequence as `if a { return }; if b { return }`
+			for _, k := range ks {
+				w.add(k, ctx, guards, bodyAction(w.r, x.Body))
+			}
 		} else if strings.Contains(strings.ReplaceAll(cond, " ", ""), "err!=nil") {
 			nctx = "onErr"
 			if a := bodyAction(w.r, x.Body); strings.HasPrefix(a, "return") {
